@@ -39,7 +39,9 @@ Record st := mkSt {
   train : list name;               (* vm.trainable_vars, in order *)
   bnd : list (name * bound);       (* vm.bnd_dic *)
   polar : list (name * name)       (* (r, phi) of the polar complex variables standard_complex may touch:
-                                      complex_vars entries that are True, not list-valued, not in same_list *)
+                                      complex_vars entries that are True, not list-valued, not in same_list, and (patch_2 of
+                                      the C08 hunt) without a "deltar" companion: the CP factor (r + c dr) e^{i (phi + c dphi)}
+                                      is NOT invariant under (r, phi) -> (-r, phi + pi) alone *)
 }.
 
 Definition read (s : st) (n : name) : R := store s (cellof s n).
